@@ -17,6 +17,8 @@ func init() {
 				Quick: map[string]int{"PRELUDE": 5, "FULLTRAFFIC": 1}, Thorough: map[string]int{"PRELUDE": 5, "FULLTRAFFIC": 1}, Witnesses: []string{"both-encode-rows", "after-a-cancel-request", "after-an-earlier-session"}},
 			{Pkg: "wire", Entry: "VerifH15", What: "same, with a handler that may keep ONE prepared statement and hand it to every connection (the library never required a fresh one per Parse): serving a connection does not write into what the handler shares",
 				Quick: map[string]int{"PRELUDE": 1, "FULLTRAFFIC": 1, "SHAREDSTMT": 1}, Thorough: map[string]int{"PRELUDE": 1, "SHAREDSTMT": 1}, Witnesses: []string{"both-encode-rows", "one-prepared-statement-for-all-connections"}},
+			{Pkg: "wire", Entry: "VerifH15", What: "same, with a handler that obtains each statement's parameter list from the library's ParseParameters helper and fills in connection-dependent types in place: what one connection's handler writes is not what the library reads for the other",
+				Quick: map[string]int{"PRELUDE": 1, "FULLTRAFFIC": 1, "PARSEPARAMS": 1}, Witnesses: []string{"both-encode-rows", "same-names-on-both"}},
 			{Pkg: "wire", Entry: "VerifH15f", What: "the same lemma on the less travelled paths: each connection optionally skips an oversized message, sends an unknown message type, fails a Bind and is discarded until Sync, runs a COPY-in cycle, and fails a statement with one shared, fully decorated error value re-decorated with the connection's own values; transcripts and callback traces equal those of the same traffic served alone by a fresh server",
 				Quick: map[string]int{}, Witnesses: []string{"both-skip-an-oversized-message", "both-copy-in", "both-discard-until-sync", "both-decorate-a-shared-error"}},
 			{Pkg: "wire", Entry: "VerifH15s", What: "the accept loop: Server.Serve on a listener handing out two connections; every goroutine the loop starts runs under an origin of its own (accesses the creator made before the go statement are ordered before the goroutine); no unsynchronised sharing between the loop and the connections or among the connections; each connection served as its own user",
